@@ -5,6 +5,9 @@ use datasketches::bloom::{BloomFilter, BloomFilterBuilder};
 
 use crate::{Family, Ob, ERR, PANIC};
 
+/// observation of an operation addressed to a slot that holds no filter
+const EMPTY: i128 = -996;
+
 pub struct Fam {
     slots: Vec<Option<BloomFilter>>,
 }
@@ -27,6 +30,14 @@ impl Family for Fam {
 
     fn step(&mut self, code: i64, a: &[i128]) -> Ob {
         let slot = a[0];
+        // an operation addressed to a slot that holds no filter is a no-op observed as EMPTY
+        let needs_slot = !matches!(code, 0 | 11 | 14 | 17);
+        if needs_slot && self.slots[slot as usize].is_none() {
+            return vec![EMPTY];
+        }
+        if matches!(code, 4 | 5 | 13) && self.slots[a[1] as usize].is_none() {
+            return vec![EMPTY];
+        }
         match code {
             0 => {
                 let f = BloomFilterBuilder::with_size(a[1] as u64, a[2] as u16).seed(a[3] as u64).build();
@@ -96,6 +107,35 @@ impl Family for Fam {
                 let f = self.get(slot);
                 let n = a[2..].chunks(3).filter(|c| f.contains(&(c[0] as i64))).count();
                 vec![n as i128]
+            }
+            16 => {
+                // fork: a = src, dst; dst := deserialize(serialize(src)), src kept
+                let bytes = self.get(slot).serialize();
+                match BloomFilter::deserialize(&bytes) {
+                    Ok(f) => {
+                        self.slots[a[1] as usize] = Some(f);
+                        vec![1]
+                    }
+                    Err(_) => vec![ERR],
+                }
+            }
+            17 => {
+                // parse untrusted bytes with allocation accounting; the slot is cleared first
+                let bytes: Vec<u8> = a[1..].iter().map(|b| *b as u8).collect();
+                self.slots[slot as usize] = None;
+                let base = crate::alloc_mark();
+                let r = BloomFilter::deserialize(&bytes);
+                if crate::alloc_peak_since(base) > 64 * bytes.len() + (1 << 20) {
+                    // out-of-proportion allocation: reported as ALLOC; the value is dropped
+                    return vec![crate::ALLOC];
+                }
+                match r {
+                    Ok(f) => {
+                        self.slots[slot as usize] = Some(f);
+                        vec![1]
+                    }
+                    Err(_) => vec![ERR],
+                }
             }
             _ => vec![PANIC],
         }
